@@ -7,6 +7,16 @@
             reference (Md5 / Sha1 / Sha256 / Sha512 / Streebog, HmacRFC over them) evaluated by TLC;
    plus the recorded "context is all zero after final" / "k_opad is all zero after final" flags must be 1.
 
+   mode C' - "resume" records: the driver PRIMED a real context after *_init with a chosen chaining value, byte
+            counter(s) (Streebog: N and Sigma) and buffered bytes - a position of a stream that can not be reached by
+            feeding bytes (totals around 2^29, 2^32, 2^61, 2^64 ... bytes) - then called update(data) and final; the
+            recorded digest must equal HrResumeFrom (module HashResume) evaluated on the same state.  "ident" records
+            carry no observation: they are instances of the identity HrResumeAgrees between HashResume's stream-state
+            formulation and the whole-message definitions (a failure is a specification bug, "spec:..." key).
+              {"k":"resume","alg":A,"h":[chaining value bytes],"cnt":[16-bit limbs],"sig":[limbs]|[],"buf":[..],"data":[..],
+               "cs":[],"obs":[{"b":build,"dg":[..],"zero":0|1},...]}
+              {"k":"ident","alg":A,"m":[..],"j":blocks,"b":bytes,"cs":[],"obs":[]}
+
    IOEnv.TRACE names an ndjson file, one scenario per line.  A scenario is one input (message, chunking into update
    calls, for HMAC a key) together with what EVERY build variant of the driver observed for it ("obs", one record per
    build), so the reference is evaluated once per input and compared with all builds:
@@ -20,7 +30,7 @@
    disagreement never hides another - that is why the cfg has no INVARIANT; NoBad is there for interactive use).  The
    rig checks that the number of distinct states equals steps + scenarios minus the states cut off by the reports,
    i.e. every event was consumed and no report was lost. *)
-EXTENDS Md5, Sha1, Sha256, Sha512, Streebog, Hmac, Json, IOUtils
+EXTENDS HashResume, Hmac, Json, IOUtils
 
 T == ndJsonDeserialize(IOEnv.TRACE)
 VARIABLES tid, pos, st, bad
@@ -91,6 +101,16 @@ DoFinal ==
                           << o.zero = 1, "hmac:context-not-zero-after-final", << >>, o.b >> >>
            IN /\ st' = << >>
               /\ Verdict(ForObs(C, 1, << >>))
+      ELSE IF Sc.k = "resume"
+      THEN LET exp == HrResumeFrom(Sc.alg, HrHOfBytes(Sc.alg, Sc.h), Sc.cnt, Sc.sig, Sc.buf, Sc.data)
+               C(o) == << << o.dg = exp, "resume:digest", exp, o.b >>,
+                          << o.zero = 1, "resume:context-not-zero-after-final", << >>, o.b >> >>
+           IN /\ st' = << >>
+              /\ Verdict(<< << HrStateOk(Sc.alg, Sc.buf, Sc.cnt) /\ Len(Sc.cnt) = HrCntLimbs(Sc.alg),
+                               "spec:resume-precondition", << >>, "" >> >> \o ForObs(C, 1, << >>))
+      ELSE IF Sc.k = "ident"
+      THEN /\ st' = << >>
+           /\ Verdict(<< << HrResumeAgrees(Sc.alg, Sc.m, Sc.j, Sc.b), "spec:HrResumeAgrees", << >>, "" >> >>)
       ELSE LET s2 == HsFinal(st)
                exp == RefH(Sc.alg, st.msg)
                C(o) == << << o.dg = exp, "hash:streaming-digest", exp, o.b >>,
